@@ -100,9 +100,32 @@ def run(ctx):
             w = want.split()
             first = next((j for j in range(min(len(got), len(w))) if got[j] != w[j]), min(len(got), len(w)))
             fails.append((i, "%s, n=%d (%s input): %s; first difference at position %d" % (op, len(xs), mode, why, first)))
+    # beyond 512 * 512 elements the block size outgrows the 512-element cache and the two internal buffers of the in-place
+    # merge come into play (MergeInternal, the search for 2 * sqrt(n) distinct keys): arrays too long for an op line are
+    # generated inside the harness from a seed; judged against Python's stable sort only (no model above 1023 elements)
+    big = []
+    for n in ([262145, 300000, 524289, 700001] if thorough else [262145, 300001]):
+        for k in ([1, 2, 3, 600, 1100, 5000, n] if thorough else [2, 1100, n]):
+            big.append((n, rng.getrandbits(32), k, rng.choice([0, 0, 1, 2, 3])))
+    # the top level of 600001 elements merges ranges of 300000: blocks of 547 > 512, the internal buffers are in use
+    big += [(600001, rng.getrandbits(32), 600001, 0), (600001, rng.getrandbits(32), 1500, 0), (600001, rng.getrandbits(32), 700, 3)]
+    bops = ["q.gsort %d %d %d %d" % b for b in big]
+    bimpl, bst, berr = ctx.impl(exe, bops, timeout=1800)
+    for j, (n, seed, k, mode) in enumerate(big):
+        s, kis = seed, []
+        for i in range(n):
+            s = (s * 6364136223846793005 + 1442695040888963407) & 0xFFFFFFFFFFFFFFFF
+            kis.append({0: (s >> 33) % k, 1: i * k // n, 2: k - 1 - i * k // n, 3: (i % 1000) * k // 1000}[mode])
+        want = sorted(range(n), key=kis.__getitem__)
+        ans = bimpl[j] if j < len(bimpl) else "<no answer>"
+        hist["generated-%d" % mode] = hist.get("generated-%d" % mode, 0) + 1
+        if ans.startswith("<") or [int(x) for x in ans.split()] != want:
+            fails.append((len(ops) + j, "q.gsort n=%d keys=%d mode=%d: events are not returned in stable chronological order (%s)"
+                          % (n, k, mode, ans[:60])))
     corr = common.diff_lines(ops, impl, model)
     ctx.cov.update({
-        "evaluations": len(ops),
+        "evaluations": len(ops) + len(bops),
+        "generated_long_arrays": ["n=%d keys=%d mode=%d" % (b[0], b[2], b[3]) for b in big],
         "distinct_nontrivial": len({o for o, c in zip(ops, chk) if c and len(c[1]) >= 2}),
         "traces_validated_against_impl": len(ops) - len(corr),
         "rule": "array lengths 0..69 and around 128/256/512/1024/2048/4096 (thorough: also every 7th length to 1100 and "
